@@ -56,6 +56,7 @@ def quiet(f, *a, **k):
 # ------------------------------------------------------------------ array variants
 
 VARIANTS = ["f64", "f32", "int", "view", "readonly"]
+REPR_VARIANTS = ["f32", "int", "view", "readonly", "fortran", "reversed"]
 
 
 class A:
@@ -64,8 +65,14 @@ class A:
     def __init__(self, seed, variant):
         self.rng = gen.np_rng(seed)
         self.variant = variant
+        self.made = []
 
-    def make(self, shape, lo=0.0, hi=1.0, ints=True, f32=True, positive=False, complex_=False):
+    def make(self, *a, **k):
+        out = self._make(*a, **k)
+        self.made.append(out)
+        return out
+
+    def _make(self, shape, lo=0.0, hi=1.0, ints=True, f32=True, positive=False, complex_=False):
         v = self.variant
         base = self.rng.uniform(lo, hi, size=shape)
         if positive:
@@ -86,6 +93,11 @@ class A:
         if v == "readonly":
             base.setflags(write=False)
             return base
+        if v == "fortran" and base.ndim >= 2:
+            return np.asfortranarray(base)
+        if v == "reversed" and base.ndim >= 1 and base.size:
+            rev = np.ascontiguousarray(base[(slice(None, None, -1),) * base.ndim])
+            return rev[(slice(None, None, -1),) * base.ndim]            # same values, negative strides
         return base
 
 
@@ -420,6 +432,100 @@ def registry_body(ctx, case):
         raise HarnessError("public callables without an argument builder: %r" % missing)
 
 
+# ------------------------------------------------------------------ equal arguments in another representation give equal results
+
+def canonical(o, made=None):
+    """The same numbers as plain C-contiguous writeable float64 / complex128 arrays (only for the data arrays the
+    factory produced; index/coordinate arrays written out in a builder are left alone)."""
+    if isinstance(o, np.ndarray):
+        if made is not None and not any(o is m for m in made):
+            return o.copy()
+        if o.dtype.kind == "c":
+            return np.array(o, dtype=np.complex128, order="C", copy=True)
+        if o.dtype.kind in "fiu":
+            return np.array(o, dtype=np.float64, order="C", copy=True)
+        return np.array(o, order="C", copy=True)
+    if isinstance(o, list):
+        return [canonical(x, made) for x in o]
+    if isinstance(o, tuple):
+        return tuple(canonical(x, made) for x in o)
+    if isinstance(o, dict):
+        return {k: canonical(v, made) for k, v in o.items()}
+    return o
+
+
+def has_dtype(o, kinds):
+    if isinstance(o, np.ndarray):
+        return str(o.dtype) in kinds
+    if isinstance(o, (list, tuple)):
+        return any(has_dtype(x, kinds) for x in o)
+    if isinstance(o, dict):
+        return any(has_dtype(x, kinds) for x in o.values())
+    return False
+
+
+def compare_results(ctx, a, b, tol, what):
+    if isinstance(a, np.ndarray) or isinstance(b, np.ndarray):
+        a_, b_ = np.asarray(a), np.asarray(b)
+        ctx.require(a_.shape == b_.shape, "%s: result shapes %s vs %s" % (what, a_.shape, b_.shape))
+        if a_.dtype.kind in "fciub" and b_.dtype.kind in "fciub" and a_.size:
+            af, bf = a_.astype(np.complex128), b_.astype(np.complex128)
+            fin = np.isfinite(bf)
+            ctx.require(bool(np.all(np.isfinite(af) == fin)), "%s: non-finite values appear in one representation only" % what)
+            sc = float(np.max(np.abs(bf[fin]))) if fin.any() else 1.0
+            err = float(np.max(np.abs(af[fin] - bf[fin]))) / (sc or 1.0) if fin.any() else 0.0
+            ctx.require(err <= tol, "%s: results differ by %.3g of their scale (tolerance %.1g)" % (what, err, tol))
+        return
+    if isinstance(a, (list, tuple)) and isinstance(b, (list, tuple)):
+        ctx.require(len(a) == len(b), "%s: result lengths differ" % what)
+        for x, y in zip(a, b):
+            compare_results(ctx, x, y, tol, what)
+        return
+    if isinstance(a, dict) and isinstance(b, dict):
+        for k in a:
+            if k in b:
+                compare_results(ctx, a[k], b[k], tol, what)
+        return
+    if isinstance(a, (int, float, complex, np.generic)) and isinstance(b, (int, float, complex, np.generic)):
+        compare_results(ctx, np.asarray(a), np.asarray(b), tol, what)
+
+
+def repr_cases(tier):
+    names = names_strategy()
+    reps = 1 if tier == "quick" else 3
+    return [{"name": n, "variant": v, "seed": 500 + 31 * k + i} for i, n in enumerate(names) for v in REPR_VARIANTS for k in range(reps)]
+
+
+def repr_body(ctx, case):
+    """Equal numbers in another representation (single precision, integer dtype, strided / Fortran / reversed view,
+    read-only) must give the same result as plain float64 C arrays, up to the working precision of the representation."""
+    R, _ = REG()
+    name, variant, seed = case["name"], case["variant"], case["seed"]
+    fn, builder, _ = R[name]
+    fac = A(seed, variant)
+    args, kwargs = builder(fac)
+    cargs, ckwargs = canonical(args, fac.made), canonical(kwargs, fac.made)
+    arrs = any(isinstance(x, np.ndarray) for x in list(args) + list(kwargs.values()))
+    ctx.case(case, nontrivial=arrs, classes=["fn_" + name.split(".")[-1], "variant_" + variant])
+    if name.endswith("calc_seperations_fast") or name.endswith("mirror_covariance_matrix"):
+        return                                   # compiled kernel / bit-pattern helper: one fixed dtype by contract
+    st_np = np.random.get_state()
+    try:
+        np.random.seed(seed % (2**32))
+        try:
+            rv = quiet(call, name, fn, args, kwargs)
+        except ValueError as e:
+            if "read-only" in str(e):
+                raise Violation("%s attempted an in-place write to a read-only argument (%s)" % (name, e))
+            raise
+        np.random.seed(seed % (2**32))
+        rc = quiet(call, name, fn, cargs, ckwargs)
+    finally:
+        np.random.set_state(st_np)
+    single = has_dtype(args, ("float32", "complex64")) or has_dtype(kwargs, ("float32", "complex64"))
+    compare_results(ctx, rv, rc, 2e-3 if single else 1e-9, "%s with %s arguments vs the same numbers as float64 C arrays" % (name, variant))
+
+
 # ------------------------------------------------------------------ hidden state across calls: main process vs pristine process
 
 def fresh_cases(tier):
@@ -600,6 +706,7 @@ def replay_history(ctx, history):
 LAWS = [
     plain_law("registry_complete", lambda tier: [{"check": "registry"}], registry_body),
     plain_law("every_function_every_variant", round_robin_cases, one_call_body, shards={"quick": 8, "thorough": 16}),
+    plain_law("representation_independence", repr_cases, repr_body, shards={"quick": 8, "thorough": 16}),
     plain_law("pristine_process_agreement", fresh_cases, fresh_body, shards={"quick": 12, "thorough": 16}),
     given_law("no_mutation_repeatable", one_call_cases(), one_call_body, {"quick": 100, "thorough": 1200}, shards={"quick": 6, "thorough": 16}),
     given_law("batch", batch_cases(), batch_body, {"quick": 150, "thorough": 2000}, shards={"quick": 3, "thorough": 16}),
